@@ -40,7 +40,10 @@ LEVEL_TEXT = ("Machine-checked Coq theorems over an executable two-layer model: 
               "in-place rewrite loop (run on its copy) leaves exactly the resolved positions, no call alters a list-backed frame except an "
               "append to that frame, which adds one row to it only; the no-copy reading of collect is refuted; the harness hands real list "
               "objects round, looks at them after every call and at the end, and the oracle requires them unchanged and every result to be the "
-              "plain-list result for the list's original content.")
+              "plain-list result for the list's original content. Round 5: == on cell values is only assumed to be an equivalence (1 == 1.0 == "
+              "True are different values); all theorems hold under that weaker hypothesis, distinct is proved to keep the first member of each "
+              "class ITSELF (spec_firsts), and the correspondence runs on coded values (int / float / bool of the same number) with "
+              "type-sensitive comparison of every listing, collect and row.")
 LEVEL_NOTE = ("Trusted: Coq kernel + vm_compute; the hand-written code model (validated, not verified, against CPython generator / list() / slice "
               "semantics and the shipped compiled collector by the correspondence run); in the step-language model (stream prog, theorem "
               "C03_programs) a derived lazy frame is listed at once; deferred forcing is covered by the object-level model (stream heap), whose "
@@ -70,6 +73,8 @@ TRUSTED = [
     "C03 code model (coq/Model/C03.v, coq/Base/PySlice.v): modelled, not verified: CPython slice clamping, list.index, zip/enumerate over a "
     "generator, set membership of int tuples, range(), list(x) = iter + length hint + drain, numpy object-array shape of collect_cython",
     "two RelationSchema objects are equal only if they are the same object (random column identities): modelled by a schema id",
+    "cell values are coded 4n+t (t: int/float/bool) for Coq; Python's == on them is modelled as equality of n (zveq), the harness's "
+    "canonicalisation _cv keeps the Python type of every observed cell",
     "C03 object-level model (coq/Model/C03_Heap.v): modelled, not verified: a generator function reads its closure's attributes when first "
     "advanced, a generator expression evaluates its outermost iterable when created, iter(generator) is the generator, iter(list) is private, "
     "zip asks its first argument first, a finished generator stays finished; fuel (hfuel) proved sufficient for the generators the theorems meet",
@@ -79,7 +84,9 @@ TRUSTED = [
     "after a lazily backed frame was derived from it are judged by the Python oracle only (label heap:oracle-only)",
 ]
 ASSUMPTIONS = [
-    "row values compare with an equivalence (Python ==); the harness uses small ints (including -1 and -2, equal hashes)",
+    "row values compare with an equivalence (Python ==, hypothesis veq_equiv: reflexive, symmetric, transitive - NOT identity); the harness uses "
+    "small ints (including -1 and -2, equal hashes) and, since round 5, the equal-but-distinguishable values n / n.0 / True / False; NaN, "
+    "Decimal, and a Row instance vs an equal plain tuple are not exercised (listings compare cell values and their types, not row objects)",
     "frames are rectangular (every row as wide as the schema): a ragged row is C10's subject",
     "stream prog / C03_programs: a derived generator-backed frame is listed before anything else touches its source (stream heap and the "
     "C03_unforced_* theorems drop this)",
@@ -89,6 +96,43 @@ ASSUMPTIONS = [
 KNOWN_WITNESSES = {}
 
 VALUES = [-2, -1, 0, 1, 2, 3]
+# round 5: values that are == (and hash alike) yet distinguishable: 1 / 1.0 / True ...
+MIXED = [0, 0.0, False, 1, 1.0, True, 2, 2.0, -1, -1.0]
+
+
+def _cv(v):
+    """canonical cell value of an observation, TYPE-PRESERVING: bool, integral float or int (JSON keeps the three apart)"""
+    if isinstance(v, bool) or type(v).__name__ == "bool_":
+        return bool(v)
+    if isinstance(v, float) or type(v).__name__.startswith("float"):
+        f = float(v)
+        if f != f or f in (float("inf"), float("-inf")) or f != int(f):
+            raise ValueError("harness: unexpected float %r" % (v,))
+        return f
+    if isinstance(v, int) or hasattr(v, "__index__"):
+        return int(v)
+    raise ValueError("harness: unexpected cell value %r of type %s" % (v, type(v).__name__))
+
+
+def _code(v):
+    """the Coq model's coded value: 4 * n + t, t = 0 int, 1 float, 2 bool"""
+    if isinstance(v, bool):
+        return 4 * int(v) + 2
+    if isinstance(v, float):
+        return 4 * int(v) + 1
+    return 4 * int(v)
+
+
+def _x(a):
+    """deep copy in which equal-but-distinguishable values no longer compare equal (True == 1 == 1.0 in Python):
+    every comparison of observed with required values goes through it"""
+    if isinstance(a, (list, tuple)):
+        return [_x(b) for b in a]
+    if isinstance(a, bool):
+        return "bool:%d" % a
+    if isinstance(a, float):
+        return "float:%r" % a
+    return a
 EXN = {"ValueError": "ValueError", "IndexError": "IndexError", "TypeError": "TypeError"}
 MATERIALISING = {"head", "tail", "slice", "add", "batches", "collect", "collect1", "getitem", "getitem1", "row", "len"}
 
@@ -151,7 +195,7 @@ def _schema_id(frames, j):
 def _listing(df):
     try:
         names = [str(n) for n in df.column_names]
-        rows = [[int(v) for v in r] for r in list(df)]
+        rows = [[_cv(v) for v in r] for r in list(df)]
         return [names, rows]
     except Exception as e:  # listing raised
         return ["!raise", type(e).__name__]
@@ -212,16 +256,16 @@ def observe(case):
                 bs = list(a.to_batches(op[1])); new = bs; o = ["frames", [_listing(b) for b in bs]]
             elif k in ("collect", "getitem"):
                 c = a.collect(_cols_arg(op[1]), op[2]) if k == "collect" else a[_cols_arg(op[1])]
-                o = ["cols", [[int(v) for v in col] for col in c]]
+                o = ["cols", [[_cv(v) for v in col] for col in c]]
             elif k in ("collect1", "getitem1"):
                 c = a.collect(op[1], op[2]) if k == "collect1" else a[op[1]]
-                o = ["col", [int(v) for v in c]]
+                o = ["col", [_cv(v) for v in c]]
             elif k == "row":
-                o = ["row", [int(v) for v in a.row(op[1])]]
+                o = ["row", [_cv(v) for v in a.row(op[1])]]
             elif k == "len":
                 o = ["nat", len(a)]
             elif k == "iter":
-                o = ["rows", [[int(v) for v in r] for r in a]]
+                o = ["rows", [[_cv(v) for v in r] for r in a]]
             else:
                 raise KeyError(k)
         except KeyError:
@@ -348,7 +392,7 @@ def oracle(case, obs):
             if o[0] == "raise":
                 return f"{where}: raised {o[1]}; required {kind} {want}"
             got = o[1:] if kind == "frame" else o[1]
-            if o[0] != kind or got != want:
+            if o[0] != kind or _x(got) != _x(want):
                 return f"{where}: required {kind} {want}, got {o}"
         # ---- the source(s): a materialised source is never altered; a generator-backed one is
         # complete after an operator that materialises it and otherwise has at most a tail left
@@ -364,10 +408,10 @@ def oracle(case, obs):
             if got[0] != snames:
                 return f"{where}: source column names changed from {snames} to {got[0]}"
             if not lz or (st["op"][0] in MATERIALISING and o[0] != "raise"):
-                if got[1] != srows:
+                if _x(got[1]) != _x(srows):
                     return f"{where}: source rows must still be {srows}, listing gave {got[1]}"
             else:
-                if got[1] != srows[len(srows) - len(got[1]):]:
+                if _x(got[1]) != _x(srows[len(srows) - len(got[1]):]):
                     return f"{where}: a generator-backed source may only have a tail of its rows left, listing gave {got[1]} of {srows}"
         # ---- extend the reference environment (with the observed value where the property is silent)
         if o[0] == "frame":
@@ -393,7 +437,7 @@ def _names(ns):
 
 
 def _row(r):
-    return L.lst(L.Z(v) for v in r)
+    return L.lst(L.Z(_code(v)) for v in r)
 
 
 def _rows(rs):
@@ -615,15 +659,31 @@ def _window_cases(nmax):
                     yield _one(fr, ["slice", k, ln], lz)
 
 
+def _distinct_cases(tier):
+    """every short sequence of rows over values that are equal but distinguishable, through distinct - on a list-backed frame, on
+    a generator-backed copy, and (object level) followed by collect of the surviving values"""
+    U = [1, 1.0, True, 2, 2.0] + ([0, 0.0, False] if tier != "quick" else [])
+    for n in (1, 2, 3):
+        for seq in itertools.product(U, repeat=n):
+            fr = _frame("a", [[v] for v in seq])
+            for lz in (False, True):
+                yield _one(fr, ["distinct"], lz)
+            if n <= 2:
+                for gen in (False, True):
+                    yield _hcase([_hframe("ab", [[v, 7] for v in seq] + [[seq[0], 7.0]], gen=gen)],
+                                 [(0, ["distinct"]), (1, ["collect1", "a", None]), (1, ["row", 0]), (0, ["select1", "b"]), (3, ["distinct"])])
+
+
 def exhaustive(tier):
     nmax = 3 if tier == "quick" else 5
-    return itertools.chain(_window_cases(nmax), _deferred_cases(tier), _aliasing_cases(tier)), (
+    return itertools.chain(_window_cases(nmax), _deferred_cases(tier), _aliasing_cases(tier), _distinct_cases(tier)), (
         f"every head/tail/slice(offset)/slice(offset,length)/row/to_batches/collect-limit argument in -(n+2)..n+2 "
         f"on one-column frames of n = 0..{nmax} rows, list-backed and generator-backed; every combination of source backing "
         f"(list, generator, select/filter/take result) x derived frame (select, filter, take, head, distinct) x observation(s) of the "
         f"source or of a sibling made before the derived frame is first listed; one caller-owned column list (5 contents) handed to every "
         f"pair / triple of collect, indexing, select calls on two frames with different column layouts (and on the projection); every "
-        f"frame-returning operator followed by append() to the source, the result or both")
+        f"frame-returning operator followed by append() to the source, the result or both; every sequence of 1..3 rows over the equal-but-"
+        f"distinguishable values 1 / 1.0 / True / 2 / 2.0 through distinct (list-backed, generator-backed, then collect / row of the survivors)")
 
 
 def _rand_frame(rng, names=None):
@@ -631,7 +691,7 @@ def _rand_frame(rng, names=None):
         nc = rng.choice([0, 1, 1, 2, 2, 3, 4])
         names = rng.sample("abcd", nc)
     n = rng.choice([0, 1, 2, 3, 3, 4, 5, 6, 8, 10, 12])
-    pool = rng.choice([VALUES, [-2, -1], [0, 1], VALUES])
+    pool = rng.choice([VALUES, [-2, -1], [0, 1], VALUES, MIXED, [1, 1.0, True, 2.0]])
     rows = [[rng.choice(pool) for _ in names] for _ in range(n)]
     return names, rows
 
@@ -826,20 +886,20 @@ def _observe_heap(case):
                 new = list(a.to_batches(op[1]))
             elif k in ("collect", "getitem"):
                 c = a.collect(arg(op[1], _cols_arg), op[2]) if k == "collect" else a[arg(op[1], _cols_arg)]
-                o = ["cols", [[int(v) for v in col] for col in c]]
+                o = ["cols", [[_cv(v) for v in col] for col in c]]
             elif k in ("collect1", "getitem1"):
                 c = a.collect(op[1], op[2]) if k == "collect1" else a[op[1]]
-                o = ["col", [int(v) for v in c]]
+                o = ["col", [_cv(v) for v in c]]
             elif k == "row":
-                o = ["row", [int(v) for v in a.row(op[1])]]
+                o = ["row", [_cv(v) for v in a.row(op[1])]]
             elif k == "len":
                 o = ["nat", len(a)]
             elif k == "rowcount":
                 o = ["nat", int(a.rowcount)]
             elif k == "iter":
-                o = ["rows", [[int(v) for v in r] for r in a]]
+                o = ["rows", [[_cv(v) for v in r] for r in a]]
             elif k == "list":
-                o = ["rows", [[int(v) for v in r] for r in list(a)]]
+                o = ["rows", [[_cv(v) for v in r] for r in list(a)]]
             elif k == "mat":
                 a.materialize()
                 o = ["new", []]
@@ -1027,7 +1087,7 @@ def _oracle_heap(case, obs):
                 D.status, D.rows = "spent", rows
         else:
             D.status, D.rows = "list", rows
-        if prior is not None and k in ("list", "iter") and o[0] == "rows" and o[1] != prior[len(prior) - len(o[1]):]:
+        if prior is not None and k in ("list", "iter") and o[0] == "rows" and _x(o[1]) != _x(prior[len(prior) - len(o[1]):]):
             return f"{where}: a frame whose generator has been advanced may only have a tail of {prior} left, listing gave {o[1]}"
         # the expected outcome
         if k in ("list", "iter"):
@@ -1056,7 +1116,7 @@ def _oracle_heap(case, obs):
             elif kind == "new":
                 if o != ["new", []]:
                     return f"{where}: got {o}"
-            elif o[0] != kind or o[1] != want:
+            elif o[0] != kind or _x(o[1]) != _x(want):
                 return f"{where}: required {kind} {want}, got {o}"
         # new list-backed frames
         if o[0] == "new":
